@@ -46,6 +46,29 @@ CHECKS = {
              'Route x method availability likewise. Header negotiation '
              'strings are enumerated concretely (stated as enumeration).',
         ref='DESIGN.md section 5 C14, Appendix C'),
+    'C15': dict(
+        text='Claimed slice of C15: (a) every numeric leaf of the write '
+             'corpus unconstrained-symbolic; (b) special floats enumerated; '
+             '(c) every one-step structural mutation of 8 request documents '
+             'with symbolic numbers; (d) error body format at a symbolic '
+             'microversion (code <=> minor >= 23); (e) numeric query values '
+             'on exotic topologies; z3 decides every branch and the '
+             'no-change obligations. (f) CrossHair on the pure query-string '
+             'parsers: bounded bug-hunting, "Not confirmed" is reported as '
+             'such, never as a proof.',
+        ref='DESIGN.md section 5 C15'),
+    'C17': dict(
+        category='fault_enumeration',
+        text='The faulting statement and the fault kind (deadlock, deadlock '
+             'after a database-side rollback, duplicate key, generic error) '
+             'are explorer decisions over the write corpus with a symbolic '
+             'pre-state; the real wrap_db_retry / enginefacade code runs; '
+             'for every fault z3 proves: answered like the fault-free run '
+             'and final state equal to its result, or an error with a '
+             'well-formed body and the pre-state untouched. Thorough: pairs '
+             'of faults. Counterexamples replayed with real listeners on '
+             'SQLite.',
+        ref='DESIGN.md section 5 C17'),
     'C16': dict(
         text='For every route x method the caller is a vector of symbolic '
              'credential bits (token, admin, service, reader, member, same '
@@ -100,6 +123,34 @@ CHECKS = {
              'pre-state; on every path answered >=400 z3 proves the post-state '
              'relations equal the pre-state relations for all numeric values.',
         ref='DESIGN.md section 5 C04'),
+    'C05': dict(
+        text='Two (thorough: three) real requests on one provider run as '
+             'greenlets through the full stack; every interleaving at '
+             'transaction granularity is an explorer decision sequence; '
+             'stored and supplied generations and inventory numbers are '
+             'symbolic. On each terminal path z3 proves: two successes never '
+             'carried equal generations; a success carried the generation '
+             'committed when its write transaction started; the final state '
+             'equals a serial execution of exactly the successful requests '
+             '(so a 409 changed nothing).',
+        ref='DESIGN.md section 5 C05'),
+    'C06': dict(
+        text='As C05 for consumer generations: PUT/POST allocations and '
+             'reshaper racing for one new or existing consumer; obligations: '
+             'one winner per generation, success carried the current '
+             'generation (null <=> the request itself created the consumer '
+             'and nobody wrote it since), serial equivalence, allocation => '
+             'consumer record after every schedule.',
+        ref='DESIGN.md section 5 C06'),
+    'C07': dict(
+        text='As C05/C06 for claims of different consumers and guarded '
+             'inventory/trait/aggregate writers racing for one inventory: '
+             'for each terminal path z3 proves that the final relations '
+             'equal those of some serial execution (re-executed in the same '
+             'path on a fresh copy of the same symbolic state) in which the '
+             'same requests succeed, and that the claims did not jointly '
+             'over-commit.',
+        ref='DESIGN.md section 5 C07'),
     'C08': dict(
         text='One inductive step: pre-state assumed referentially intact, '
              'every path of the write corpus explored, z3 proves that no '
